@@ -80,6 +80,14 @@ CHECKS["C04"] = (
     "DESIGN.md section 4, C04",
 )
 
+CHECKS["C07"] = (
+    "E1-explicit-state",
+    "lock-step explicit-state BFS over twin classes (frozen=True vs not) with a differential oracle and an immutability invariant on every frozen instance ever created",
+    "Every class of the family is generated twice (frozen twin; frozen by inheritance for plain subclasses; plus non-frozen parents holding frozen children, singly and in a list). Histories of constructor + copy-on-write operations are replayed on both twins; from every state every public operation (assignment, deletion, all helpers with and without _inplace, deepcopy, nested keyword updates) is executed on both: every frozen instance ever created must stay observably unchanged, in-place operations on a frozen receiver must raise FrozenInstanceError, copy-on-write results must be distinct from the receiver exactly when the twin's are, and outcome kind / exception family / canonical result must equal the twin's.",
+    "Bounded depth and pools; results compared modulo class name; an in-place call whose arguments are themselves rejected may fail like the twin.",
+    "DESIGN.md section 4, C07",
+)
+
 ENGINES = [
     {"name": "E1-explicit-state", "path": "mc/common.py, props/*.py (explore)", "serves_properties": [],
      "kind_free_text": "breadth-first explicit-state search over the real transition function; a state is the shortest operation history that reaches it, rebuilt by replay; canonical-form deduplication; lock-step reference model"},
